@@ -64,6 +64,11 @@ macro_rules! hilbert_curve {
 
 hilbert_curve!(c17_hilbert_curve_1d_b4, 1, 4, 6);
 hilbert_curve!(c17_hilbert_curve_1d_b16, 1, 16, 18);
+hilbert_curve!(c17_hilbert_curve_2d_b1, 2, 1, 6);
+hilbert_curve!(c17_hilbert_curve_3d_b1, 3, 1, 6);
+hilbert_curve!(c17_hilbert_curve_4d_b1, 4, 1, 7);
+hilbert_curve!(c17_hilbert_curve_5d_b1, 5, 1, 8);
+hilbert_curve!(c17_hilbert_curve_3d_b2, 3, 2, 6);
 hilbert_curve!(c17_hilbert_curve_2d_b2, 2, 2, 6);
 hilbert_curve!(c17_hilbert_curve_2d_b4, 2, 4, 6);
 hilbert_curve!(c17_hilbert_curve_2d_b8, 2, 8, 10);
